@@ -268,6 +268,8 @@ pub struct World {
     pub yielded_n: Cell<u64>,
     pub max_backlog: Cell<u64>,
     pub desc: RefCell<String>,
+    /// tag of the property this worker is run for ("" = stop at the first violation of any)
+    pub armed: Cell<&'static str>,
 }
 
 thread_local! {
@@ -328,6 +330,7 @@ impl World {
             yielded_n: Cell::new(0),
             max_backlog: Cell::new(0),
             desc: RefCell::new(String::new()),
+            armed: Cell::new(""),
         })
     }
 
@@ -356,13 +359,23 @@ impl World {
             let _ = writeln!(std::io::stdout(), "EARLY {line}");
             let _ = std::io::stdout().flush();
         }
-        if v.len() < 16 {
+        // soft violations of other properties must not crowd out the property under test
+        let armed = self.armed.get();
+        let mine = v.iter().filter(|x| x.prop == armed).count();
+        if (prop == armed && mine < 8) || (prop != armed && v.len() - mine < 12) {
             v.push(Violation { prop, rule, detail, clock: self.clock.get() });
         }
     }
 
+    /// Should the history stop? Yes once the property the worker is run for is violated, or any
+    /// property whose violation leaves the reference model out of step with the crate. Violations
+    /// of the purely observational properties (extra polls, extra wake-ups, latency, hints,
+    /// allocations) of *other* properties are recorded and the history goes on, so that they do
+    /// not mask the property under test.
     pub fn has_violation(&self) -> bool {
-        !self.viol.borrow().is_empty()
+        const SOFT: [&str; 6] = ["C01", "C12", "C13", "C14", "C17", "C18"];
+        let armed = self.armed.get();
+        self.viol.borrow().iter().any(|v| v.prop == armed || !SOFT.contains(&v.prop))
     }
 
     // ------------------------------------------------------------------ objects
